@@ -52,6 +52,10 @@ impl LdpcDecoder for ScriptedDec {
             panic!("scripted decoder panic");
         }
         let id = self.counter.fetch_add(1, Ordering::SeqCst) + 1;
+        // seed u64::MAX - 3 = the decoders work for 60 frames in total, then every further frame panics (ends a run that would never end)
+        if self.seed == u64::MAX - 3 && id > 60 {
+            panic!("scripted decoder panic after 60 frames");
+        }
         {
             let mut l = self.log.lock().unwrap();
             if l.len() < self.log_limit {
@@ -369,6 +373,34 @@ pub fn run(ctx: &mut Ctx, _replay: Option<&[String]>) {
             let o = if expect_ok && out == "ok" { "err".to_string() } else { out };
             ctx.emit(&format!("c13 fail {}@{}", name, w), &o, true, &["failure-injection"]);
         }
+    }
+    // a frame-error target of 2^63 and more ("run until interrupted"): the point must keep collecting -- here until the decoders die after 60
+    // frames, which makes the run fail; a run that ends without an error, or before a single frame was collected, stopped short of its target
+    for (i, target) in [u64::MAX, 1u64 << 63, (1u64 << 63) + 7, (1u64 << 32) + 1].into_iter().enumerate() {
+        set_workers([1usize, 4, 16, 2][i]);
+        let fac = Scripted {
+            counter: Arc::new(AtomicU64::new(0)), log: Arc::new(Mutex::new(Vec::new())), log_limit: 0,
+            panic_every: 0, built: Arc::new(AtomicU64::new(0)), seed: u64::MAX - 3, seq: false, iter_offset: 0,
+        };
+        let h2 = h.clone();
+        let out = with_watchdog(move || {
+            let (tx, rx) = mpsc::channel();
+            let r = guarded(move || {
+                BerTestBuilder {
+                    h: h2, decoder_implementation: fac, modulation: Modulation::Bpsk, puncturing_pattern: None,
+                    interleaving_columns: None, max_frame_errors: target, max_iterations: 9, ebn0s_db: &[60.0, 61.0],
+                    reporter: Some(Reporter { tx, interval: Duration::ZERO }), bch_max_errors: 0,
+                }.build().map(|t| t.run().map(|_| ()).map_err(|_| ())).map_err(|_| ())
+            });
+            let frames = rx.try_iter().filter_map(|r| match r { Report::Statistics(s) => Some(s.num_frames), _ => None }).max().unwrap_or(0);
+            match r {
+                Ok(Ok(Ok(()))) => format!("ok-after-{}-frames-with-a-target-of-{}-frame-errors", frames, target),
+                Ok(Ok(Err(()))) => if frames >= 1 { "err".to_string() } else { format!("err-but-no-frame-was-collected-with-a-target-of-{}-frame-errors", target) },
+                Ok(Err(())) => "err-at-build".to_string(),
+                Err(_) => "panic".to_string(),
+            }
+        }, 30);
+        ctx.emit(&format!("c13 fail frame-error-target-{}-never-reached@{}", target, [1usize, 4, 16, 2][i]), &out, true, &["failure-injection", "frame-error-target-2^32-and-more"]);
     }
     set_workers(1024);
 }
